@@ -81,11 +81,22 @@ def run(ctx):
     r6 = rep.rule('C03.6-durable-hand-over', 'R-TYPESTATE', 'info/local/remote are complete and fsynced before todo/<n> is given up; one output record per input record')
     attach(r6, td, only={'todo:info-SYNCED-before-todo-removal', 'todo:channel-files-SYNCED-before-todo-removal', 'todo:request-only-after-the-whole-envelope-was-read',
                          'todo:exactly-one-channel-record-per-T', 'todo:no-channel-record-for-non-T', 'todo:channel-record-is-rwline', 'todo:record-goes-to-the-channel-rewrite-chose'})
-    r6.expect_min(6)
+    from rules import C01, C07
+    qs = C01.queue_sites(db, rep)
+    for key in (('C01.1-durability', 'intd-SYNCED-at-commit'), ('C01.1-durability', 'mess-SYNCED-at-commit'), ('C01.7-envelope-gate', 'grammar-complete-at-commit')):
+        if key not in qs:
+            raise AnalysisBroken('qmail-queue: %s not decided' % (key,))
+        v = qs[key]
+        r6.check(v[0], 'queue:' + key[1], v[1], v[2], v[3])
+    r6.expect_min(9)
 
     r7 = rep.rule('C03.7-bounce-hand-over', 'R-ORDER', 'the bounce record is removed only after the notice was queued; failures reading it latch qmail_fail; the message is removed only after injectbounce succeeded')
     ib = qsend.analyse_injectbounce(db, rep)
     attach(r7, ib, only={'ib:bounce-file-removed-only-after-notice-queued-or-triple-bounce', 'ib:returns-1-only-when-bounce-file-is-gone', 'ib:read-failure-latches-qmail_fail'})
     attach(r7, md, only={'md:info-removed-only-after-channels+todo-gone-and-bounce-handled', 'md:bounce-injected-only-when-no-channel-file-and-no-todo'})
-    r7.expect_min(5)
+    ls_, _ = C07.latch_sites(db, rep, db.program('qmail-send'))
+    for inst, v in sorted(ls_.items()):
+        if inst.startswith('qmail_from:') or inst.startswith('qmail_close:') or inst.startswith('qmail_fail:'):
+            r7.check(v[0], 'latch:' + inst, v[1], v[2], v[3])
+    r7.expect_min(8)
     rep.assume('the spawners report honestly (C09, C11, C18 decide their side)', 'C02 ordering premises', 'histories, crash and fault sequences as executions are not explored')
